@@ -342,6 +342,7 @@ func (l *lexer) scan() {
 					continue
 				}
 			} else if c == '#' && p+1 < len(l.src) && l.src[p+1] == '}' {
+				l.src = l.src[p:]
 				l.err = l.errorf("unexpected #}")
 				break LOOP
 			}
